@@ -463,6 +463,33 @@ func init() {
 	})
 }
 
+// crash (C05, C06): every file-system protocol of the storage layer
+func crashLetters(w *drv.World) []string {
+	ls := pubs(w, 6, 1, 2)
+	ls = append(ls, singleDeletes(w)...)
+	for i := 0; i < numSegments(w); i++ {
+		if l := segmentLive(w, i); len(l) > 1 {
+			ls = append(ls, delLetter(l))
+		}
+	}
+	other := "v1"
+	mi := "Mi:1"
+	if w.Cfg.Ver == 1 {
+		other, mi = "v2", "Mi:2"
+	}
+	ls = append(ls, "S", "R:", "R:rec", "R:"+other+",eager", mi)
+	return dedupe(ls)
+}
+
+func withAS(c drv.Cfg) drv.Cfg { c.AutoSync = true; return c }
+
+func init() {
+	Register(&Family{
+		Name: "crash", Cfgs: []drv.Cfg{cfgBoth, withAS(cfgBoth), withVer(cfgBoth, 1), withAS(cfgNone)}, Letters: crashLetters,
+		Depth: map[string]int{"quick": 3, "thorough": 5}, KeySet: []int{0, 1},
+	})
+}
+
 func ixLetters(w *drv.World) []string {
 	ls := pubs(w, 6, 1, 2)
 	ls = append(ls, singleDeletes(w)...)
